@@ -562,4 +562,185 @@ theorem leg_nullary_formOk (ctx : Spec.X86.Ctx) (rule : Rule) (p : Parsed) (byte
   simp [hop, hs, hpp8, ha67, allOk]
   exact ⟨hw, by simpa using c66, by simpa using cF3, by simpa using cF2, cF0, c9B, by omega, by simpa using ccont⟩
 
+/-! ### memory forms -/
+
+
+/-- number of displacement bytes SDM tables 2-2 / 2-3 prescribe (32/64-bit addressing) -/
+def dispLen (mb : BitVec 8) (sib : Option (BitVec 8)) : Nat :=
+  let mod := bits mb 6 2
+  let sel := match sib with | some s => bits s 0 3 | Option.none => bits mb 0 3
+  if mod == 0 then (if sel == 5 then 4 else 0) else if mod == 1 then 1 else 4
+
+/-- ModRM / SIB / displacement parser on a well-formed memory-form byte string (32/64-bit addressing) -/
+theorem parseModRM_mem (p : Parsed) (mb : BitVec 8) (sib : Option (BitVec 8)) (disp rest : List (BitVec 8))
+    (hmod : bits mb 6 2 ≠ 3) (hsib : (bits mb 0 3 == 4) = sib.isSome) (hlen : disp.length = dispLen mb sib) :
+    parseModRM false p (mb :: (sib.toList ++ disp ++ rest)) =
+      .ok ({ p with modrm := some mb, addr16 := false, sib := (match sib with | some s => some s | Option.none => p.sib),
+                    dispSize := disp.length, disp := leNat disp }, rest) := by
+  have hmod' : (bits mb 6 2 == 3) = false := by simpa using hmod
+  cases sib with
+  | none =>
+    have hrm : (bits mb 0 3 == 4) = false := by simpa using hsib
+    simp only [dispLen] at hlen
+    simp only [parseModRM, hmod', hrm, Option.toList_none, List.nil_append, Bool.false_eq_true, ↓reduceIte, List.length_append]
+    rw [← hlen]
+    simp
+  | some s =>
+    have hrm : (bits mb 0 3 == 4) = true := by simpa using hsib
+    simp only [dispLen] at hlen
+    simp only [parseModRM, hmod', hrm, Option.toList_some, List.cons_append, List.nil_append, Bool.false_eq_true, ↓reduceIte, List.length_append]
+    rw [← hlen]
+    simp
+
+
+
+/-- the displacement the decoder computes (SDM: disp8 sign-extended and, under EVEX, scaled by N; disp32 sign-extended) -/
+def decodedDisp (r : Rule) (p : Parsed) : Int :=
+  if p.dispSize == 0 then 0 else if p.dispSize == 1 then sextNat p.disp 8 * (if p.vexKind == 4 then disp8N r p else 1) else sextNat p.disp 32
+
+/-- `[base + disp]` with a 64-bit base register in 64-bit mode: the memory check of the monitor succeeds when the decoded base
+register (ModRM.rm, or SIB.base with "no index" and scale 0) and the decoded displacement are the operand's -/
+theorem checkMem_base64 (c : Spec.X86.Ctx) (r : Rule) (p : Parsed) (m : MemOp) (mb : BitVec 8)
+    (hm64 : c.mode64 = true) (hno67 : p.prefixes.contains 0x67#8 = false) (ha16 : p.addr16 = false)
+    (hmodrm : p.modrm = some mb) (hmod : bits mb 6 2 ≠ 3)
+    (hbk : m.baseKind = .gpq) (hik : m.indexKind = .none)
+    (hfields : (p.sib = Option.none ∧ ¬ (bits mb 6 2 = 0 ∧ bits mb 0 3 = 5) ∧ regNum false p.B (bits mb 0 3) = m.baseId) ∨
+               (∃ s, p.sib = some s ∧ ¬ (bits mb 6 2 = 0 ∧ bits s 0 3 = 5) ∧ regNum false p.B (bits s 0 3) = m.baseId ∧
+                     regNum false p.X (bits s 3 3) = 4 ∧ bits s 6 2 = 0))
+    (hd : decodedDisp r p = sextNat (m.disp.toNat % 2 ^ 32) 32) :
+    checkMem c r p m = .ok () := by
+  have hmod' : (bits mb 6 2 == 3) = false := by simpa using hmod
+  have hvs : vsibOf m = .none := by simp [vsibOf, hik]
+  unfold decodedDisp at hd
+  have hno67' : ¬ (0x67#8 ∈ p.prefixes) := by simpa using hno67
+  rcases hfields with ⟨hs, hn5, hb⟩ | ⟨s, hs, hn5, hb, hx, hsc⟩
+  · have hn5' : (bits mb 6 2 == 0 && bits mb 0 3 == 5) = false := by
+      simp only [Bool.and_eq_false_iff, beq_eq_false_iff_ne]; by_cases h : bits mb 6 2 = 0 <;> simp_all
+    simp [checkMem, hmodrm, hmod', hm64, hno67, hno67', ha16, hvs, hbk, hik, hs, hn5', hb, wantedAddrSize, bind, Except.bind, pure, Except.pure]
+    simpa using hd
+  · have hn5' : (bits mb 6 2 == 0 && bits s 0 3 == 5) = false := by
+      simp only [Bool.and_eq_false_iff, beq_eq_false_iff_ne]; by_cases h : bits mb 6 2 = 0 <;> simp_all
+    simp [checkMem, hmodrm, hmod', hm64, hno67, hno67', ha16, hvs, hbk, hik, hs, hn5', hb, hx, hsc, wantedAddrSize, bind, Except.bind, pure, Except.pure]
+    simpa using hd
+
+/-- EVEX memory form (64-bit mode, no legacy prefix) -/
+theorem parse_evex_mem (r : Rule) (p0 p1 p2 o mb : BitVec 8) (sib : Option (BitVec 8)) (disp imm : List (BitVec 8))
+    (hs : r.space = 2) (hfw : r.pp &&& 8 = 0) (hmk : r.modKind ≠ 0)
+    (h3 : bit p0 3 = false) (h2 : bit p1 2 = true)
+    (hmod : bits mb 6 2 ≠ 3) (hsib : (bits mb 0 3 == 4) = sib.isSome) (hdl : disp.length = dispLen mb sib)
+    (hlen : imm.length = r.immBytes + r.relBytes) (hmoff : r.moff = false) :
+    parse true r (0x62#8 :: p0 :: p1 :: p2 :: o :: mb :: (sib.toList ++ disp ++ imm)) =
+      .ok { prefixes := [], vexKind := 4, R := !bit p0 7, X := !bit p0 6, B := !bit p0 5, R' := !bit p0 4, map := bits p0 0 3,
+            W := bit p1 7, vvvv := 15 - bits p1 3 4, pp := bits p1 0 2, z := bit p2 7, L := bits p2 5 2, b := bit p2 4,
+            V' := !bit p2 3, aaa := bits p2 0 3, opcode := o, modrm := some mb, sib := sib, dispSize := disp.length, disp := leNat disp,
+            addr16 := false, imm := imm, length := 6 + sib.toList.length + disp.length + imm.length } := by
+  have hmk' : (r.modKind != 0) = true := by simpa using hmk
+  simp only [parse, takePrefixes, show isLegacyPrefix 0x62#8 (r.pp &&& 8 != 0) = false from by simp [isLegacyPrefix, hfw], hs]
+  simp [-List.append_assoc, h3, h2, hmk', parseModRM_mem _ mb sib disp imm hmod hsib hdl, hlen, hmoff, bind, Except.bind, pure, Except.pure]
+  cases sib <;> simp <;> omega
+
+/-- VEX3 memory form -/
+theorem parse_vex3_mem (r : Rule) (b1 b2 o mb : BitVec 8) (sib : Option (BitVec 8)) (disp imm : List (BitVec 8))
+    (hs : r.space = 1) (hfw : r.pp &&& 8 = 0) (hmk : r.modKind ≠ 0)
+    (hmod : bits mb 6 2 ≠ 3) (hsib : (bits mb 0 3 == 4) = sib.isSome) (hdl : disp.length = dispLen mb sib)
+    (hlen : imm.length = r.immBytes + r.relBytes) (hmoff : r.moff = false) :
+    parse true r (0xC4#8 :: b1 :: b2 :: o :: mb :: (sib.toList ++ disp ++ imm)) =
+      .ok { prefixes := [], vexKind := 3, R := !bit b1 7, X := !bit b1 6, B := !bit b1 5, map := bits b1 0 5, W := bit b2 7,
+            vvvv := 15 - bits b2 3 4, L := bits b2 2 1, pp := bits b2 0 2, opcode := o, modrm := some mb, sib := sib, dispSize := disp.length, disp := leNat disp,
+            addr16 := false, imm := imm, length := 5 + sib.toList.length + disp.length + imm.length } := by
+  have hmk' : (r.modKind != 0) = true := by simpa using hmk
+  simp only [parse, takePrefixes, show isLegacyPrefix 0xC4#8 (r.pp &&& 8 != 0) = false from by simp [isLegacyPrefix, hfw], hs]
+  simp [-List.append_assoc, hmk', parseModRM_mem _ mb sib disp imm hmod hsib hdl, hlen, hmoff, bind, Except.bind, pure, Except.pure]
+  cases sib <;> simp <;> omega
+
+/-- VEX2 memory form -/
+theorem parse_vex2_mem (r : Rule) (b1 o mb : BitVec 8) (sib : Option (BitVec 8)) (disp imm : List (BitVec 8))
+    (hs : r.space = 1) (hfw : r.pp &&& 8 = 0) (hmk : r.modKind ≠ 0)
+    (hmod : bits mb 6 2 ≠ 3) (hsib : (bits mb 0 3 == 4) = sib.isSome) (hdl : disp.length = dispLen mb sib)
+    (hlen : imm.length = r.immBytes + r.relBytes) (hmoff : r.moff = false) :
+    parse true r (0xC5#8 :: b1 :: o :: mb :: (sib.toList ++ disp ++ imm)) =
+      .ok { prefixes := [], vexKind := 2, R := !bit b1 7, vvvv := 15 - bits b1 3 4, L := bits b1 2 1, pp := bits b1 0 2, map := 1, opcode := o, modrm := some mb, sib := sib, dispSize := disp.length, disp := leNat disp,
+            addr16 := false, imm := imm, length := 4 + sib.toList.length + disp.length + imm.length } := by
+  have hmk' : (r.modKind != 0) = true := by simpa using hmk
+  simp only [parse, takePrefixes, show isLegacyPrefix 0xC5#8 (r.pp &&& 8 != 0) = false from by simp [isLegacyPrefix, hfw], hs]
+  simp [-List.append_assoc, hmk', parseModRM_mem _ mb sib disp imm hmod hsib hdl, hlen, hmoff, bind, Except.bind, pure, Except.pure]
+  cases sib <;> simp <;> omega
+
+
+/-- what the parser returned for a VEX-family MEMORY form, in terms of the rule -/
+structure VexParsedM (rule : Rule) (p : Parsed) (mb : BitVec 8) : Prop where
+  hvk : p.vexKind = 2 ∨ p.vexKind = 3 ∨ p.vexKind = 4 ∨ p.vexKind = 5
+  hpfx : p.prefixes = []
+  hrex : p.rex = none
+  hmodrm : p.modrm = some mb
+  hmod : bits mb 6 2 ≠ 3
+  hop : p.opcode.toNat = rule.opcode
+  hmap : p.map = rule.map
+  hpp : p.pp = ppWant rule
+  hw : wWant rule = 2 ∨ p.W = (wWant rule == 1)
+  hl : rule.l = 3 ∨ p.L = rule.l
+  hl1 : p.vexKind ≠ 4 → p.L ≤ 1
+  hev : p.vexKind = 4 → (p.aaa = 0 ∧ p.z = false ∧ p.b = false ∧ p.map < 8)
+
+/-- rule side for memory forms: ModRM.mod may (or must) be a memory mode -/
+structure VexRuleM (rule : Rule) (nimm : Nat) : Prop where
+  hs : rule.space = 1 ∨ rule.space = 2 ∨ rule.space = 3
+  hpp8 : rule.pp &&& 8 = 0
+  hri : rule.ri = false
+  hmk : rule.modKind = 1 ∨ rule.modKind = 3
+  hmr : rule.modr = 8
+  hmrm : rule.modrm = 8
+  himm : rule.immBytes = nimm
+  hrel : rule.relBytes = 0
+  hmoff : rule.moff = false
+  ha67 : rule.a67 = false
+  hrev : rule.immRev = false
+  hosz : rule.osz = 0
+
+/-- shape [reg, vvvv, MEM] with a `[base64 + disp]` operand without segment / broadcast: all conditions of the monitor hold -/
+theorem vex_rvm_mem_formOk (ctx : Spec.X86.Ctx) (rule : Rule) (p : Parsed) (mb : BitVec 8) (bytes : List (BitVec 8))
+    (k0 k1 : RegKind) (f0 f1 f2 : FormOp) (i0 i1 : Nat) (m : MemOp)
+    (hm64 : ctx.mode64 = true) (hmode : (rule.modes &&& 2 != 0) = true) (hk0 : PlainKind k0) (hk1 : PlainKind k1)
+    (R : VexRuleM rule 0) (hf0 : f0.role = .reg) (hf1 : f1.role = .vvvv) (hf2 : f2.role = .rm)
+    (hbk : m.baseKind = .gpq) (hik : m.indexKind = .none) (hseg : m.seg = 0) (hbc : m.bcst = 0)
+    (hal : alignOps rule.oszEff rule.ops [.reg k0 i0, .reg k1 i1, .mem m] =
+           some [(f0, some (.reg k0 i0)), (f1, some (.reg k1 i1)), (f2, some (.mem m))])
+    (hparse : parse true rule bytes = .ok p) (P : VexParsedM rule p mb)
+    (hreg : regNum p.R' p.R (bits mb 3 3) = i0)
+    (hvv : regNum p.V' false p.vvvv = i1)
+    (hcm : checkMem ctx rule p m = .ok ()) :
+    formOk ctx rule [.reg k0 i0, .reg k1 i1, .mem m] {} bytes = true := by
+  obtain ⟨hvk, hpfx, hrex, hmodrm, hmod, hop, hmap, hpp, hw, hl, hl1, hev⟩ := P
+  obtain ⟨hs, hpp8, hri, hmk, hmr, hmrm, himm, hrel, hmoff, ha67, hrev, hosz⟩ := R
+  have hleg : isLegacySpace rule = false := by rcases hs with h | h | h <;> simp [isLegacySpace, h]
+  have hs4 : (rule.space == 4) = false := by rcases hs with h | h | h <;> simp [h]
+  have hvk0 : (p.vexKind == 0) = false := by rcases hvk with h | h | h | h <;> simp [h]
+  have hmod' : (bits mb 6 2 == 3) = false := by simpa using hmod
+  simp only [formOk, conds, hm64, hal, hparse, ↓reduceIte, hmode]
+  simp only [allOk_cons, allOk_append, decorConds, headConds, prefixConds, modrmConds, operandConds, opConds, tailConds, hf0, hf1, hf2,
+    regConds_plain _ _ _ _ _ hk0, regConds_plain _ _ _ _ _ hk1, allOk_nil, memOperandOf, implMemOf, usesVvvv, memDestOf, hcm, Spec.X86.ofExcept,
+    hasBcst, hleg, hri, hmodrm, hpfx, hrex, List.foldl, List.find?]
+  simp [hop, hmap, hpp, hreg, hvv, hmod', hmr, hmrm, hs4, hvk0, hpp8, ha67, hbc, hseg, hbk, hik, wantedAddrSize, segPrefix, vsibOf, hm64, allOk]
+  have hvk0' : ¬ p.vexKind = 0 := by rcases hvk with h | h | h | h <;> omega
+  and_intros
+  all_goals first
+    | exact hw
+    | exact hvk0'
+    | (refine Or.inl ?_; rcases hs with h | h | h <;> omega)
+    | (rcases hmk with h | h <;> omega)
+    | (rcases hl with h | h
+       · exact Or.inl (Or.inl h)
+       · exact Or.inr h)
+    | (by_cases h4 : p.vexKind = 4
+       · left; omega
+       · right; exact hl1 h4)
+    | (by_cases h4 : p.vexKind = 4
+       · obtain ⟨a, z, b, mm⟩ := hev h4
+         rw [hmap] at mm
+         simp [h4, allOk, a, z, b, mm]
+       · simp [h4, allOk])
+    | exact Or.inl (Or.inr (Or.inr (Or.inl ‹_›)))
+    | exact Or.inl (Or.inr (Or.inr hf1))
+    | rfl
+
 end AsmjitVerif.Lemmas.X86Parse
